@@ -4,8 +4,11 @@
    matmul22 false = the specified product; matmul22 true = the repository's (extra comparison rows(a) = cols(b),
    pinned by its test_linalg_dot case 15): sound whenever it answers, refuted on [n,k] x [k,p] with n <> p (F15).
    STACKS: C14_matmul_stacks — for equally long stacks [s,n,k] x [s,k,n] block t of the product is the matrix product
-   of block t of each operand (the split into blocks, the pairwise products and the re-assembly are inside the theorem). *)
-From ArrRs Require Import Index Axis Linalg Linalg_proofs Matstack_proofs.
+   of block t of each operand (the split into blocks, the pairwise products and the re-assembly are inside the theorem).
+   REFUSALS: operands whose contracted lengths differ are answered with an error value — two matrices (C14_refuse), the
+   flattened dot of operands with different element counts, the inner product of vectors of different lengths, a matrix
+   with a vector and a vector with a matrix (C14_vdot_refuse, C14_inner_vectors_refuse, C14_matvec_refuse, C14_vecmat_refuse). *)
+From ArrRs Require Import Index Axis Linalg Linalg_proofs Matstack_proofs Join_refuse.
 
 Theorem C14_matmul22 : forall (T : Type) (zero : T) (add mul : T -> T -> T) (strict : bool) (a b : arr T) n k p,
   shape a = [n; k] -> shape b = [k; p] -> (strict = true -> n = p) ->
@@ -60,3 +63,19 @@ Example C14_nonvacuous :
   matmul22 0%Z Z.add Z.mul true (mk [1;2;3;4;5;6]%Z [2;3]) (mk [1;2;3;4;5;6]%Z [3;2]) = Ok (mk [22;28;49;64]%Z [2;2]) /\
   entry_sum 0%Z Z.add Z.mul (mk [1;2;3;4;5;6]%Z [2;3]) (mk [1;2;3;4;5;6]%Z [3;2]) 3 1 0 = 49%Z.
 Proof. split; vm_compute; reflexivity. Qed.
+
+Theorem C14_vdot_refuse : forall (T : Type) (zero : T) (add mul : T -> T -> T) (a b : arr T),
+  len a <> len b -> vdot zero add mul a b = Err EEqual.
+Proof. exact @vdot_refuse. Qed.
+
+Theorem C14_inner_vectors_refuse : forall (T : Type) (zero : T) (add mul : T -> T -> T) (a b : arr T) n m,
+  shape a = [n] -> shape b = [m] -> n <> m -> inner zero add mul a b = Err EParam.
+Proof. exact @inner_vectors_refuse. Qed.
+
+Theorem C14_matvec_refuse : forall (T : Type) (zero : T) (add mul : T -> T -> T) strict (m v : arr T) r c n,
+  shape m = [r; c] -> shape v = [n] -> c <> n -> matmul zero add mul strict m v = Err EParam.
+Proof. exact @matvec_refuse. Qed.
+
+Theorem C14_vecmat_refuse : forall (T : Type) (zero : T) (add mul : T -> T -> T) strict (v m : arr T) n r c,
+  shape v = [n] -> shape m = [r; c] -> n <> r -> matmul zero add mul strict v m = Err EParam.
+Proof. exact @vecmat_refuse. Qed.
